@@ -4,6 +4,7 @@ import (
 	"bytes"
 	"context"
 	"fmt"
+	"io"
 	"os"
 	"sort"
 	"strings"
@@ -28,6 +29,7 @@ type c19Params struct {
 	Dup      float64    `json:"dup"`
 	EmptyKey bool       `json:"empty_key"`
 	Fixed    *gen.Table `json:"fixed,omitempty"`
+	ViaFile  bool       `json:"via_file,omitempty"` // rows enter through Sorter.SortFile (the CSV route) instead of AddRow
 }
 
 func toU32(a []int) []uint32 {
@@ -107,10 +109,17 @@ func pkAfterRemoval(pk []int, removed map[int]struct{}, ncols int) []int {
 // the bare Columns field (no profiler) as the merge collector's sorter when
 // columns are removed — a profiler built for the original columns cannot process
 // rows that lost columns, and no caller combines the two.
-func feedSorter(rows [][]string, cols []string, pk []int, runSize uint64, withProfiler bool) (*sorter.Sorter, error) {
+func feedSorter(rows [][]string, cols []string, pk []int, runSize uint64, withProfiler bool, viaFile bool) (*sorter.Sorter, error) {
 	s, err := sorter.NewSorter(sorter.WithRunSize(runSize))
 	if err != nil {
 		return nil, err
+	}
+	if viaFile {
+		csvBytes := gen.ToCSV(&gen.Table{Cols: cols, Rows: rows}, 0)
+		if err := s.SortFile(io.NopCloser(bytes.NewReader(csvBytes)), gen.ColNames(cols, pk)); err != nil {
+			return nil, err
+		}
+		return s, nil
 	}
 	if withProfiler {
 		s.SetColumns(cols)
@@ -233,6 +242,11 @@ func c19Run(c *fw.Case, env *fw.Env) *fw.Obs {
 	} else {
 		t = gen.GenTable(rng, gen.Opts{Rows: p.Rows, NCols: p.NCols, Style: gen.CellStyle(p.Style), PK: p.PK, DupRate: p.Dup, EmptyKey: p.EmptyKey})
 	}
+	if p.ViaFile {
+		// what the file says is the input (CR LF inside a cell reads back as LF; the sorter is fed the very same bytes)
+		t = gen.Normalize(t)
+		p.Removed = nil
+	}
 	removed := map[int]struct{}{}
 	for _, r := range p.Removed {
 		removed[r] = struct{}{}
@@ -256,7 +270,7 @@ func c19Run(c *fw.Case, env *fw.Env) *fw.Obs {
 	outs := map[string]sorterOut{}
 	spilled := 0
 	for _, which := range []string{"SortedBlocks", "SortedRows"} {
-		s, err := feedSorter(t.Rows, t.Cols, p.PK, runSize, len(removed) == 0)
+		s, err := feedSorter(t.Rows, t.Cols, p.PK, runSize, len(removed) == 0, p.ViaFile)
 		if err != nil {
 			o.Violate("sorter-error/AddRow/"+class, "AddRow: %v", err)
 			return o
@@ -399,6 +413,9 @@ func init() {
 							p.Removed = append(p.Removed, c)
 						}
 					}
+				}
+				if rng.Intn(4) == 0 && p.NCols >= 2 {
+					p.ViaFile, p.Removed = true, nil
 				}
 				l.Add("random", p, 0)
 			}
